@@ -2,7 +2,7 @@
 C14 — number, string, encoding and date functions of the stdlib compute the
 documented result.
 
-The functions named here (`Stdlib.ceilImpl`, `substrClusters`, `upperImpl`, …) are
+The functions named here (`StdNum.ceilImpl`, `substrClusters`, `upperImpl`, …) are
 the transliterations of the `Impl` callbacks that the harness diffs against
 /repo on every run (`std.num`, `std.glue`, … ops).  A finite number
 `.fin n m e p` has the exact value `sval n m · 2^e`; `Num.IsVal r k 0` reads "r is
@@ -18,7 +18,7 @@ import CtyModel.Lemmas.StdNumFmt
 import CtyModel.Props.C02
 namespace CtyModel
 namespace C14
-open Num Value Stdlib NumCmp
+open Num Value StdNum NumCmp
 
 /-! ## Numbers -/
 
